@@ -58,7 +58,15 @@ class Dispatch:
         from .minieval import Mini
         nsw = Mini(self.prog.fn('bxdecay0::name_starts_with'))
         # the port's prefix helper is folded from its own body (not assumed to be a prefix test)
-        self.evc = sccp.Evaluator('c', consts, helpers={'name_starts_with': nsw.call})
+        chelpers = {'name_starts_with': nsw.call}
+        # pure file-local predicates of genbbsub.cc (extracted by a refactor) are folded from their own bodies on constant arguments
+        mapped = {id(f) for fs in tvrun.cpp_candidates(self.prog).values() for f in fs}
+        for f in self.prog.functions.values():
+            if f.get('file') == self.fn.get('file') and f is not self.fn and not f.get('method') and id(f) not in mapped and \
+                    f.get('ret', f.get('ty', '')) != 'void' and all(p['ty'].replace('const ', '').strip() in ('int', 'bool', 'double', 'std::string &', 'std::string')
+                                                                     or 'string' in p['ty'] for p in f['params']):
+                chelpers.setdefault(f['name'], Mini(f).call)
+        self.evc = sccp.Evaluator('c', consts, helpers=chelpers)
 
     def residual(self, side, env):
         g = self.gf0 if side == 'f' else self.gc0
